@@ -29,14 +29,20 @@ from .tlc import require_actions, run_tlc
 
 INVARIANTS = ["TypeOK", "Broadcast", "PerIndex", "IndexDependence", "Linear", "Asymptote"]
 TIMES = [-50.0, -1.0, -0.25, 0.0, 0.125, 0.25, 0.5, 1.0, 2.0, 5.0, 20.0, 100.0]
+# with the periodic-excitation term the signal is defined within a period around the pulse (the library refuses non-finite values far outside)
+TIMES_BS = [-1.0, -0.25, 0.0, 0.125, 0.25, 0.5, 1.0, 2.0, 5.0]
+
+
+def times_of(bs: bool):
+    return TIMES_BS if bs else TIMES
 
 
 def constants(tier: str) -> dict:
     if tier == "quick":
         return dict(GaussCounts=[1, 2, 3], ValVars=[1, 2], ScaleOpts=[True, False], ShiftVars=[0, 1], COrders=[0, 1, 2, 3],
-                    WOrders=[0, 1, 2, 3], WOrderCap=1, NormOpts=[True, False], AxisVars=[1, 2], WithErrors=True, WithAsym=True)
+                    WOrders=[0, 1, 2, 3], WOrderCap=1, NormOpts=[True, False], BacksweepOpts=[False, True], AxisVars=[1, 2], WithErrors=True, WithAsym=True)
     return dict(GaussCounts=[1, 2, 3], ValVars=[1, 2, 3], ScaleOpts=[True, False], ShiftVars=[0, 1, 2], COrders=[0, 1, 2, 3],
-                WOrders=[0, 1, 2, 3], WOrderCap=3, NormOpts=[True, False], AxisVars=[1, 2, 3], WithErrors=True, WithAsym=True)
+                WOrders=[0, 1, 2, 3], WOrderCap=3, NormOpts=[True, False], BacksweepOpts=[False, True], AxisVars=[1, 2, 3], WithErrors=True, WithAsym=True)
 
 
 def _tla(v):
@@ -60,7 +66,11 @@ def expected_counts(c: dict) -> tuple[int, int]:
     shapes = sum(2 if n == 1 else 3 for n in c["GaussCounts"]) + (2 if c["WithErrors"] else 0)
     disp = (1 if (0 in c["COrders"] and 0 in c["WOrders"]) else 0)
     disp += 2 * sum(1 for co in c["COrders"] for wo in c["WOrders"] if wo <= c["WOrderCap"] or co == wo)
-    n = shapes * len(c["ValVars"]) * len(c["ScaleOpts"]) * len(c["ShiftVars"]) * disp * len(c["NormOpts"]) * len(c["AxisVars"])
+    # per (shift variant, axis variant): the axis must be long enough for the shift table; backsweep TRUE only with the first axis
+    n_axes = len(c["AxisVars"]) + (1 if (True in c.get("BacksweepOpts", [False]) and 1 in c["AxisVars"]) else 0) * (1 if False in c.get("BacksweepOpts", [False]) else 0)
+    if c.get("BacksweepOpts", [False]) == [True]:
+        n_axes = 1 if 1 in c["AxisVars"] else 0
+    n = shapes * len(c["ValVars"]) * len(c["ScaleOpts"]) * len(c["ShiftVars"]) * disp * len(c["NormOpts"]) * n_axes
     return n, (13 * 3 * 6 if c["WithAsym"] else 0)
 
 
@@ -111,23 +121,24 @@ def key_of(clause: str, cfg: dict) -> str:
 def _plain(eff_i: dict, cfg: dict):
     """Implementation's own index-independent matrix for the plain Gaussian IRF Effective(i)."""
     from . import drivers_irf as D
-    k = ("plain", json.dumps([eff_i["centres"], eff_i["widths"], eff_i["scales"] if cfg["hasScale"] else None, cfg["normalize"], cfg["scalar"]]))
+    bs = bool(cfg.get("backsweep"))
+    k = ("plain", json.dumps([eff_i["centres"], eff_i["widths"], eff_i["scales"] if cfg["hasScale"] else None, cfg["normalize"], cfg["scalar"], bs]))
     if k not in _CACHE:
         item, pars = D.plain_irf_items(D.frs(eff_i["centres"]), D.frs(eff_i["widths"]), D.frs(eff_i["scales"]) if cfg["hasScale"] else None,
-                                       cfg["normalize"], cfg["scalar"])
-        _, m = D.decay_matrix(item, pars, [0.0], TIMES)
+                                       cfg["normalize"], cfg["scalar"], backsweep=bs)
+        _, m = D.decay_matrix(item, pars, [0.0], times_of(bs))
         if m.ndim != 2:
             raise MachineryError("plain Gaussian IRF produced an index-dependent matrix")
         _CACHE[k] = m
     return _CACHE[k]
 
 
-def _single(c, w):
+def _single(c, w, bs=False):
     from . import drivers_irf as D
-    k = ("single", json.dumps([c, w]))
+    k = ("single", json.dumps([c, w, bs]))
     if k not in _CACHE:
-        item, pars = D.plain_irf_items([D.fr(c)], [D.fr(w)], None, True, True)
-        _, m = D.decay_matrix(item, pars, [0.0], TIMES)
+        item, pars = D.plain_irf_items([D.fr(c)], [D.fr(w)], None, True, True, backsweep=bs)
+        _, m = D.decay_matrix(item, pars, [0.0], times_of(bs))
         _CACHE[k] = m
     return _CACHE[k]
 
@@ -193,7 +204,8 @@ def replay_case(case: dict) -> dict:
         res["skip"]["effective width <= 0 at some index: matrices not compared"] = 1
         return res
     # ---- (b) per index: own index-independent matrix at Effective(i);  (c) Linear
-    labels, full = mc.calculate_matrix(dm, gax, np.asarray(TIMES))
+    TIMES_ = times_of(bool(cfg.get("backsweep")))
+    labels, full = mc.calculate_matrix(dm, gax, np.asarray(TIMES_))
     full = D.by_label(labels, full, comps)
     for i, eff in enumerate(case["eff"]):
         res["evals"] += 1
@@ -203,14 +215,14 @@ def replay_case(case: dict) -> dict:
         tol = 1e-12 * np.maximum(1.0, np.abs(pl))
         if not np.all(d <= tol):
             a = np.unravel_index(np.argmax(d - tol), d.shape)
-            viol("PerIndex", f"index {i} (axis {axis[i]}): matrix[t={TIMES[a[0]]}, rate={D.RATES[a[1]]}] = {float(mi[a])!r}; the index-independent matrix with "
+            viol("PerIndex", f"index {i} (axis {axis[i]}): matrix[t={TIMES_[a[0]]}, rate={D.RATES[a[1]]}] = {float(mi[a])!r}; the index-independent matrix with "
                              f"the plain Gaussian Effective({i}) = centres {eff['centres']}, widths {eff['widths']} gives {float(pl[a])!r}")
-        lin = sum(D.fr(eff["weights"][g]) * _single(eff["centres"][g], eff["widths"][g]) for g in range(ng))
+        lin = sum(D.fr(eff["weights"][g]) * _single(eff["centres"][g], eff["widths"][g], bool(cfg.get("backsweep"))) for g in range(ng))
         d = np.abs(pl - lin)
         tol = 1e-12 * np.maximum(1.0, np.abs(lin))
         if not np.all(d <= tol):
             a = np.unravel_index(np.argmax(d - tol), d.shape)
-            viol("Linear", f"index {i}: multi-Gaussian column[t={TIMES[a[0]]}, rate={D.RATES[a[1]]}] = {float(pl[a])!r}, SUM_g weight_g Single_g = {float(lin[a])!r} "
+            viol("Linear", f"index {i}: multi-Gaussian column[t={TIMES_[a[0]]}, rate={D.RATES[a[1]]}] = {float(pl[a])!r}, SUM_g weight_g Single_g = {float(lin[a])!r} "
                            f"(weights {eff['weights']}, divisor {eff['divisor']})")
     return res
 
@@ -297,7 +309,7 @@ def replay_reported(case: dict) -> dict:
     item, pars = D.irf_items(cfg, case["shifts"])
     mega, extra, dsx, dpars, comps = D.decay_parts()
     dm, mc, model, parameters = D.build(mega, item, {**dpars, **pars}, extra, dsx)
-    times = np.asarray(TIMES)
+    times = np.asarray(times_of(bool(cfg.get("backsweep"))))
     gax = np.asarray(axis)
     clp = xr.DataArray(np.ones((len(axis), len(comps))), coords={"spectral": axis, "clp_label": comps}, dims=("spectral", "clp_label"))
     ds = simulate(model, "d", parameters, {"time": times, "spectral": gax}, clp)
